@@ -5,6 +5,10 @@ V = os.path.dirname(os.path.dirname(os.path.abspath(__file__)))
 ids = [json.loads(l)["id"] for l in open(os.path.join(V, "properties.jsonl"))]
 
 CHECKS = {
+ "C02": dict(cat="exploration", design="§4 C02",
+   technique="exhaustive typing matrices (operator x operand types, position x declared x supplied type, built-in method table, rule catalogue) + Hypothesis programs, with a dynamic-failure classifier and a typeof-vs-run-time-kind oracle",
+   text="Every (binary operator incl. op-assign, left type, right type) over 14 operand types, unary operators, indexing/calling/condition/loop-bound use of each type, every (typed position x declared type x supplied type) over 8 positions x 8 declared x 14 supplied types, every in-domain built-in call of C14's catalogue and ~40 boundary cases of individual typing rules are compiled; each ACCEPTED program is run and must not stop with a failure outside the language's defined dynamic failures, and for every probe the run-time kind (typed-print hook) must equal the kind of the `typeof` text. Programs of all generators are added as a random tail. The matrices are complete for the listed types; program space is sampled.",
+   note="Failures are classified from stderr text (table in msv/props/c02.py); a nil operand reaching an operator counts as use of nil. Soundness of programs the matrices do not contain is only sampled."),
  "C03": dict(cat="fault_enumeration", design="§4 C03",
    technique="property-based fault enumeration: Hypothesis-generated well-typed programs with recorded typed sites x a fixed catalogue of type-breaking edits, rejection/position/no-execution oracle",
    text="Base programs are assembled from typed snippets in nine syntactic contexts (module, function, closure, method, loop body, else-if arm, else arm, through a type alias, imported module); the control must compile and run; then every applicable fault of the catalogue (value of another kind family, one argument more/fewer, wrong argument family, bare return, value in a void function, undeclared name, unknown member, call of a non-function, index of a non-indexable, non-index index, unsupported operand kinds incl. byte partners) is applied at every recorded site, one mutant per (site, fault): ~65 mutants per program, 320 programs quick / 5 000 thorough. Each mutant must exit with status 1 as a compilation failure, print a `--> file:line:col` diagnostic naming the right source file and the mutated line, and print none of the program's output. Complete over (site x fault) for each generated program; programs are sampled.",
